@@ -9,6 +9,7 @@ of `connect` calls, any order, any orientation, with or without channels, includ
 panic, repeat, or close a ring), every number of gates `n`, chains of every length.
 -/
 import Desverif.Proofs.GateWalk
+import Desverif.Proofs.ChainSrvLemmas
 namespace C08
 open Gate
 
@@ -270,6 +271,64 @@ theorem header_fields_any_prior_header (n : Nat) (netAt : Nat → Net) (net : Ne
     issue sendTime hissue hstable hk).2]
   rfl
 
+/-- **addressing by (name, pos) finds exactly that member.** If a module's gates carry distinct
+    (name, pos) pairs, `gate(name, pos)` returns the member with that name and position for every
+    registration order of the gates (cluster members created one by one in any order, other gates in
+    between) — so a send on `(name, pos)` enters the chain of exactly that member. -/
+theorem gate_lookup_finds_member (gs : List GateDecl) (d : GateDecl) (hd : d ∈ gs)
+    (huniq : ∀ d' ∈ gs, d'.name = d.name → d'.pos = d.pos → d' = d) :
+    lookupGate gs d.name d.pos = some d.id ∧
+    ∀ gs', gs'.Perm gs → lookupGate gs' d.name d.pos = some d.id := by
+  have key : ∀ l : List GateDecl, d ∈ l → (∀ d' ∈ l, d'.name = d.name → d'.pos = d.pos → d' = d) →
+      lookupGate l d.name d.pos = some d.id := by
+    intro l hl hu
+    unfold lookupGate
+    cases hf : l.find? (fun x => x.name == d.name && x.pos == d.pos) with
+    | none =>
+      have := List.find?_eq_none.mp hf d hl
+      simp at this
+    | some x =>
+      have hp := List.find?_some hf
+      have hx := List.mem_of_find?_eq_some hf
+      simp only [Bool.and_eq_true, beq_iff_eq] at hp
+      rw [hu x hx hp.1 hp.2]; rfl
+  refine ⟨key gs hd huniq, fun gs' hp => key gs' (hp.mem_iff.mpr hd) (fun d' hd' => huniq d' (hp.mem_iff.mp hd'))⟩
+
+/-- **bursts: nothing is lost or duplicated on unbounded queues, and a single message needs the idle
+    delay.** A burst passing a chain of first-in first-out channel hops yields one outcome per
+    message, in order; with unbounded queues every message gets through; a single message arrives
+    after exactly the sum of (transmission time + latency) of the hops — the delay the walk theorems
+    use. -/
+theorem burst_exactly_once_and_idle_delay (hs : List ChainSrv.Hop) (ms : List (Option Nat)) :
+    (ChainSrv.serveChain hs ms).length = ms.length ∧
+    (∀ a, ChainSrv.serveChain hs [some a] = [some (a + ChainSrv.idleDelay hs)]) ∧
+    (∀ h : ChainSrv.Hop, h.cap = none → (∀ m ∈ ms, m ≠ none) → ∀ m ∈ ChainSrv.serveHop h 0 [] ms, m ≠ none) :=
+  ⟨ChainSrv.serveChain_length hs ms, ChainSrv.serveChain_single hs,
+    fun h hc hall => ChainSrv.serveHop_unbounded_all h hc ms 0 [] hall⟩
+
+/-- **bursts: transmissions start back to back.** `n` messages offered together at time `a` to an
+    idle hop with an unbounded queue and transmission time `tx > 0`: the `k`-th transmission starts
+    when the channel becomes idle, at `a + k·tx`, and the message leaves the hop at
+    `a + (k+1)·tx + latency`. -/
+theorem burst_start_times (h : ChainSrv.Hop) (hc : h.cap = none) (ht : h.tx ≠ 0) (a n : Nat) :
+    ChainSrv.serveHop h 0 [] (List.replicate n (some a)) =
+      (List.range n).map fun k => some (a + (k + 1) * h.tx + h.lat) := by
+  cases n with
+  | zero => rfl
+  | succ n =>
+    -- the first message finds the channel idle (`free = 0 ≤ a`), the others queue behind it
+    rw [List.replicate_succ, List.range_succ_eq_map, List.map_cons, List.map_map]
+    simp only [ChainSrv.serveHop, ht, if_false, Nat.zero_le, if_true]
+    have := ChainSrv.serveHop_simultaneous h hc ht a n 1 ([] ++ [a]) (fun _ => trivial)
+    simp only [Nat.one_mul] at this
+    rw [this]
+    simp only [Nat.zero_add, Nat.one_mul, List.cons.injEq, true_and]
+    apply List.map_congr_left
+    intro k _
+    simp only [Function.comp, Nat.succ_eq_add_one]
+    have : 1 + k + 1 = k + 1 + 1 := by omega
+    rw [this]
+
 /-- sending on a transit gate is refused (`Connection::new` asserts) -/
 theorem send_on_transit_panics (net : Net) (owner : Nat → Nat) (active : Nat → Nat → Bool) (sender fuel g t : Nat)
     (hk : kind net g = .transit) : send net owner active sender fuel g t = .sendPanic := by
@@ -311,5 +370,13 @@ example : (demoAt 0 4).len ≤ 1 ∧ kind (demoAt 50) 4 ≠ .transit := by decid
     sent on by module 0 over the demo chain: the delivered header names module 0, module 1 and gate 3 -/
 example : sendH (fun _ => demo) (fun g => g / 2) (fun _ _ => true) 0 6 0 100 100 ⟨9, 7, some 4⟩ =
     .handled 1 112 ⟨0, 1, some 3⟩ true := by decide
+
+/-- cluster "7" created in the order 2, 0, 1 with another gate in between: (7, 1) is gate 12 -/
+example : lookupGate [⟨7, 2, 10⟩, ⟨3, 0, 5⟩, ⟨7, 0, 11⟩, ⟨7, 1, 12⟩] 7 1 = some 12 := by decide
+/-- three messages at t = 100 over a channel-less hop and a hop with tx = 10, latency 3 -/
+example : ChainSrv.serveChain [⟨0, 0, none⟩, ⟨3, 10, none⟩] [some 100, some 100, some 100] =
+    [some 113, some 123, some 133] := by decide
+/-- a queue that holds one waiting message: the third message of the burst is dropped -/
+example : ChainSrv.serveChain [⟨3, 10, some 1⟩] [some 100, some 100, some 100] = [some 113, some 123, none] := by decide
 
 end C08
